@@ -257,7 +257,7 @@ func c13Sim(mode, policy string, letters []cletter) c13Exp {
 			skipping = false
 			e.replies = append(e.replies, []string{"Z"})
 		case skipping && l.Kind == "query":
-			e.replies = append(e.replies, []string{"", "TDCZ"}) // C06: not asserted
+			e.replies = append(e.replies, []string{""}) // discarded until Sync (C06)
 		case skipping && l.Kind == "unknown":
 			e.replies = append(e.replies, []string{"", "E", "EZ"}) // C06: not asserted
 		case skipping:
